@@ -24,4 +24,6 @@ THEOREMS = [
     "JanetModel.Props.C02.compile_correct_partial",
     # session 4
     "JanetModel.Props.C02.compile_correct_statements",
+    # session 4, second part
+    "JanetModel.Props.C02.compile_correct_nary_calls",
 ]
